@@ -13,7 +13,7 @@
    touches a destination holding a path of the same peer that belongs to another
    session, and [c] is the acting session or the owner of such a path. *)
 From Coq Require Import List NArith ZArith Bool.
-From RB Require Import Base.Val Model.Rib Spec.RibSpec Proofs.RibInv Proofs.RibC02 Proofs.RibC15 Proofs.RibC15L Proofs.RibViews.
+From RB Require Import Base.Val Model.Rib Spec.RibSpec Proofs.RibInv Proofs.RibC02 Proofs.RibC15 Proofs.RibC15L Proofs.RibViews Model.RibSession Proofs.RibSession.
 Import ListNotations.
 Open Scope N_scope.
 
@@ -199,3 +199,67 @@ Check limit_signalled_only_when_full :
     snd (step t (Insert s net rpid nh a filt nhinv (Some (mx c, c)))) = true ->
     sess_recount t c = mx c.
 Print Assumptions limit_signalled_only_when_full.
+
+(* ---- the repaired finding C15-session-counter (repo commit abd1341) ----
+   Model/RibSession.v adds to the operations of the RIB the synchronisation a
+   session performs when it is established and after the stale purges it runs
+   ([Sync c a]: counter c := prefixes the RIB holds from peer a).
+   [session_disciplined a c mx false ops] (Spec/RibSpec.v, decidable) says how the
+   repaired daemon uses the counter c of a session of peer a with maximum mx. *)
+
+(* From its creation by a synchronisation onwards, through every disciplined
+   continuation and whatever happened before (any history, other sessions of the same
+   peer and their retained routes included), a session's prefix-limit counter equals
+   the number of prefixes for which its peer's address holds at least one path in the
+   RIB, stale ones included: it never underflows. *)
+Theorem limit_counter_eq_recount :
+  forall shard pre ops a c mx,
+    mx < 4294967296 ->
+    session_disciplined a c mx false ops = true ->
+    let t := srun (empty_table shard) (pre ++ Sync c a :: ops) in
+    ctr_of t c = recv_recount t a /\ ctr_of t c <= N.of_nat (length (t_dests t)).
+Proof. exact C15_limit_counter_eq_recount. Qed.
+Check limit_counter_eq_recount :
+  forall shard pre ops a c mx,
+    mx < 4294967296 ->
+    session_disciplined a c mx false ops = true ->
+    let t := srun (empty_table shard) (pre ++ Sync c a :: ops) in
+    ctr_of t c = recv_recount t a /\ ctr_of t c <= N.of_nat (length (t_dests t)).
+Print Assumptions limit_counter_eq_recount.
+
+(* If the peer held no more prefixes than the maximum when the session was created, it
+   never holds more while the session lives (a new prefix beyond the maximum is refused;
+   retained prefixes count). *)
+Theorem limit_respected :
+  forall shard pre ops a c mx,
+    mx < 4294967296 ->
+    session_disciplined a c mx false ops = true ->
+    recv_recount (srun (empty_table shard) pre) a <= mx ->
+    recv_recount (srun (empty_table shard) (pre ++ Sync c a :: ops)) a <= mx.
+Proof. exact C15_limit_respected. Qed.
+Check limit_respected :
+  forall shard pre ops a c mx,
+    mx < 4294967296 ->
+    session_disciplined a c mx false ops = true ->
+    recv_recount (srun (empty_table shard) pre) a <= mx ->
+    recv_recount (srun (empty_table shard) (pre ++ Sync c a :: ops)) a <= mx.
+Print Assumptions limit_respected.
+
+(* Record of the pre-repair discipline (a new session starts at 0, the End-of-RIB purge
+   carries no counter, nothing follows it): the history of corpus/C15/known-session-counter.json
+   drives the counter to 2^64-1 with no prefix held; with the synchronisations of the
+   repaired discipline the same events keep it exact (1 after the re-announcement, 0 at the end). *)
+Theorem old_discipline_refuted :
+  ctr_of (srun (empty_table 0) kf_sops_old) 11 = 18446744073709551615
+  /\ recv_recount (srun (empty_table 0) kf_sops_old) 1 = 0
+  /\ session_disciplined 1 11 5 false (skipn 3 kf_sops_new) = true
+  /\ ctr_of (srun (empty_table 0) kf_sops_new) 11 = 0
+  /\ ctr_of (srun (empty_table 0) (firstn 4 kf_sops_new)) 11 = 1.
+Proof. exact C15_old_discipline_refuted. Qed.
+Check old_discipline_refuted :
+  ctr_of (srun (empty_table 0) kf_sops_old) 11 = 18446744073709551615
+  /\ recv_recount (srun (empty_table 0) kf_sops_old) 1 = 0
+  /\ session_disciplined 1 11 5 false (skipn 3 kf_sops_new) = true
+  /\ ctr_of (srun (empty_table 0) kf_sops_new) 11 = 0
+  /\ ctr_of (srun (empty_table 0) (firstn 4 kf_sops_new)) 11 = 1.
+Print Assumptions old_discipline_refuted.
